@@ -435,6 +435,46 @@ def lossless(ctx, rep):
                             "C13:not-transparent", case)
 
 
+def transparent_convergence(ctx, rep):
+    """a run continued from its checkpoint behaves as the run that was not interrupted, also for what the convergence loop remembers
+    between calls (the best fitness seen and when it last improved: the stagnation criterion)"""
+    rng = ctx.rng
+    with Recorder():
+        for t in range(ctx.n(10, 60)):
+            d = tempfile.mkdtemp(prefix="c13t_")
+            try:
+                level = rng.randrange(5, 30)
+                pre = rng.randrange(2, 7)
+                script = [(level, 1, 0)] * (pre + 1) + [(level - (1 if rng.random() < 0.3 else 0), 1, 0)] * 80   # (almost) no improvement
+                stag = rng.randrange(2, 9)
+                base = os.path.join(d, "ck")
+                CLOCK.ms = 0
+                o = Scripted(script)
+                with warnings.catch_warnings():
+                    warnings.simplefilter("ignore")
+                    o.evolve_until_convergence(max_generations=pre, fitness_threshold=key_to_float(-10 ** 6 + 1), convergence_check_frequency=1,
+                                               checkpoint_base_name=base, num_checkpoints=1)
+                    latest = max(int(fn.split("_")[-1][:-4]) for fn in os.listdir(d) if fn.startswith("ck_"))
+                    loaded = load_evolutionary_optimizer_from_file(f"{base}_{latest}.pkl")
+                    res = []
+                    for opt in (o, loaded):
+                        CLOCK.ms = 0
+                        r = opt.evolve_until_convergence(max_generations=60, fitness_threshold=key_to_float(-10 ** 6 + 1),
+                                                         convergence_check_frequency=1, stagnation_generations=stag)
+                        res.append((r.status, r.ngen, opt.generational_age, repr(r.fitness)))
+                case = {"generations_before_checkpoint": pre, "stagnation_generations": stag, "script_head": script[:pre + 3]}
+                rep.case(("transparent-convergence", pre, stag, t), True)
+                rep.count("transparent_convergence")
+                if latest != o.generational_age - res[0][1]:
+                    continue        # the checkpoint is not the state the original continued from
+                rep.count("transparent_convergence_compared")
+                if res[0] != res[1]:
+                    rep.violate(f"continuing with evolve_until_convergence(stagnation_generations={stag}): the uninterrupted optimizer ends with "
+                                f"(status, generations, age, fitness) = {res[0]}, the one loaded from its checkpoint with {res[1]}", "C13:not-transparent", case)
+            finally:
+                shutil.rmtree(d, ignore_errors=True)
+
+
 def names_oracle(ctx, rep):
     """checkpoint files carry the documented name `<base>_<generation>.pkl` for EVERY base name (dots, several runs sharing a
     directory whose base names differ only after a dot), load as the optimizer of that generation, and a run removes only its
@@ -493,6 +533,7 @@ def run(ctx, rep):
                           "transparent: identical continuation under the same numpy/random state"]
     rotation(ctx, rep)
     names_oracle(ctx, rep)
+    transparent_convergence(ctx, rep)
     lossless(ctx, rep)
 
 
